@@ -68,6 +68,8 @@ type Node struct {
 	FailAt   int // execution index at which the node fails (-1: never)
 	FailKind int
 	FailTag  string // if set, only the run with this tag fails
+	// FailInState: a panicking node panics while it holds the state (inside ProcessState)
+	FailInState bool
 	// interrupts
 	RerunN int // number of attempts that answer InterruptAndRerun
 	// AnyOut: the node's static output type is `any` (the values are the same maps): successors
@@ -105,6 +107,10 @@ type Plan struct {
 	IntBefore, IntAfter []string
 	Depth               int
 	AnyOut              bool // nested plan built as Graph[map, any]
+	// SeenState: the state pre-handlers of this (Pregel, stateful) plan copy into the node input
+	// how many node bodies / post-handlers have updated the state so far. In lock-step execution
+	// that number is fixed at the start of a superstep, whatever the nodes of the step do.
+	SeenState bool
 }
 
 func (p *Plan) node(k string) *Node {
@@ -139,6 +145,7 @@ type GenOpts struct {
 	AllowMissingKey bool // nested workflows may map a key their input lacks
 	ForceLoop       bool // Pregel: guarantee a cycle that the branch scripts keep taking
 	TopState        bool // the top-level plan always has state
+	SeeState        bool // Pregel plans with state get SeenState (no lazily reading transforms then)
 }
 
 type gen struct {
@@ -150,7 +157,39 @@ type gen struct {
 func Generate(t *kernel.Tape, o GenOpts) *Plan {
 	g := &gen{t: t, o: o}
 	mode := o.Modes[t.Plan(len(o.Modes))]
-	return g.plan("", "", mode, 0, false)
+	p := g.plan("", "", mode, 0, false)
+	if o.SeeState {
+		markSeenState(p)
+	}
+	return p
+}
+
+func markSeenState(p *Plan) {
+	var walk func(q *Plan, f func(*Plan))
+	walk = func(q *Plan, f func(*Plan)) {
+		f(q)
+		for _, n := range q.Nodes {
+			if n.Kind == KSub {
+				walk(n.Sub, f)
+			}
+		}
+	}
+	any := false
+	walk(p, func(q *Plan) {
+		if q.State && q.Mode == ModePregel {
+			q.SeenState = true
+			any = true
+		}
+	})
+	if any {
+		// a lazily reading transform runs its body (and its state access) whenever its output is
+		// read, possibly supersteps later
+		walk(p, func(q *Plan) {
+			for _, n := range q.Nodes {
+				n.Early = false
+			}
+		})
+	}
 }
 
 func (g *gen) plan(name, prefix string, mode, depth int, stateAvail bool) *Plan {
@@ -785,11 +824,17 @@ func (p *Plan) Render() string {
 		}
 		if n.FailAt >= 0 {
 			fmt.Fprintf(&sb, " FAIL@%d/%d", n.FailAt, n.FailKind)
+			if n.FailInState {
+				sb.WriteString("/instate")
+			}
 		}
 		if n.RerunN > 0 {
 			fmt.Fprintf(&sb, " RERUN%d", n.RerunN)
 		}
 		sb.WriteString(" ")
+	}
+	if p.SeenState {
+		sb.WriteString("seen ")
 	}
 	sb.WriteString("| ")
 	for _, e := range p.Edges {
